@@ -135,6 +135,10 @@ func coqKey(k string) string {
 	return coqStr(b.String())
 }
 
+// The skeleton is printed with the monomorphic constructors the case files define
+// (jn z = VNum (Some z), js s = VStr (Some s), jN / jS = not recorded, ac / an and oc / on = cons /
+// nil of arrays and objects): plain applications elaborate several times faster than list and pair
+// notations with implicit arguments.
 func skel(b *strings.Builder, v interface{}) {
 	switch x := v.(type) {
 	case nil:
@@ -143,41 +147,39 @@ func skel(b *strings.Builder, v interface{}) {
 		b.WriteString("VBool")
 	case float64:
 		if x == float64(int64(x)) && x < 1<<31 && x > -(1<<31) {
-			fmt.Fprintf(b, "VNum (Some (%d)%%Z)", int64(x))
+			fmt.Fprintf(b, "(jn (%d)%%Z)", int64(x))
 		} else {
-			b.WriteString("VNum None")
+			b.WriteString("jN")
 		}
 	case string:
 		if len(x) <= strMax && printable(x) {
-			b.WriteString("VStr (Some " + coqStr(x) + ")")
+			b.WriteString("(js " + coqStr(x) + ")")
 		} else {
-			b.WriteString("VStr None")
+			b.WriteString("jS")
 		}
 	case []interface{}:
-		b.WriteString("VArr [")
-		for i, e := range x {
-			if i > 0 {
-				b.WriteString("; ")
-			}
+		b.WriteString("(VArr ")
+		for _, e := range x {
+			b.WriteString("(ac ")
 			skel(b, e)
+			b.WriteString(" ")
 		}
-		b.WriteString("]")
+		b.WriteString("an")
+		b.WriteString(strings.Repeat(")", len(x)+1))
 	case map[string]interface{}:
 		keys := make([]string, 0, len(x))
 		for k := range x {
 			keys = append(keys, k)
 		}
 		sort.Strings(keys)
-		b.WriteString("VObj [")
-		for i, k := range keys {
-			if i > 0 {
-				b.WriteString("; ")
-			}
-			b.WriteString("(" + coqKey(k) + ", ")
+		b.WriteString("(VObj ")
+		for _, k := range keys {
+			b.WriteString("(oc " + coqKey(k) + " ")
 			skel(b, x[k])
-			b.WriteString(")")
+			b.WriteString(" ")
 		}
-		b.WriteString("]")
+		b.WriteString("on")
+		b.WriteString(strings.Repeat(")", len(keys)+1))
 	default:
 		b.WriteString("VNull")
 	}
@@ -325,10 +327,27 @@ func pathString(side string, p []step) string {
 	return b.String()
 }
 
+// replacements tried where the programs read a key the item does not have: a wrong type for
+// every asserted type, and an object so that code below it runs
+var absentRepl = map[string]bool{"bool": true, "str": true, "obj": true}
+
 func mutate(c *caseIn, keys []string, per int, emit func(*caseOut)) error {
 	base := map[string]json.RawMessage{"request": c.Request, "response": c.Response}
 	seen := map[string]int{}
-	try := func(name string, req, resp map[string]interface{}) {
+	// build makes a fresh copy of the deviating pair; it is run first and printed (from another
+	// fresh copy: the stages see exactly what is printed) only when its outcome class is wanted
+	try := func(name string, build func() (map[string]interface{}, map[string]interface{}, bool)) {
+		req, resp, ok := build()
+		if !ok {
+			return
+		}
+		sum, rep := runStages(c.Ext, req, resp)
+		class := fmt.Sprintf("%v:%s:%d/%v:%s:%d", sum.Panic, sum.File, sum.Line, rep.Panic, rep.File, rep.Line)
+		if seen[class] >= per {
+			return
+		}
+		seen[class]++
+		req, resp, _ = build()
 		rq, _ := json.Marshal(req)
 		rs, _ := json.Marshal(resp)
 		if req == nil {
@@ -337,20 +356,15 @@ func mutate(c *caseIn, keys []string, per int, emit func(*caseOut)) error {
 		if resp == nil {
 			rs = []byte("null")
 		}
-		// run on a fresh decoding: the stages see exactly what is printed
 		o, err := runOne(&caseIn{ID: c.ID, Ext: c.Ext, Request: rq, Response: rs}, true)
 		if err != nil {
 			return
 		}
-		class := fmt.Sprintf("%v:%s:%d/%v:%s:%d", o.Sum.Panic, o.Sum.File, o.Sum.Line, o.Rep.Panic, o.Rep.File, o.Rep.Line)
-		if seen[class] >= per {
-			return
-		}
-		seen[class]++
 		o.Mut = name
 		emit(o)
 	}
 	for _, side := range []string{"request", "response"} {
+		side := side
 		m, err := decode(base[side])
 		if err != nil {
 			return err
@@ -361,28 +375,40 @@ func mutate(c *caseIn, keys []string, per int, emit func(*caseOut)) error {
 		if side == "response" {
 			other = "request"
 		}
-		om, _ := decode(base[other])
-		pair := func(x map[string]interface{}) (map[string]interface{}, map[string]interface{}) {
+		pair := func(x map[string]interface{}) (map[string]interface{}, map[string]interface{}, bool) {
+			om, _ := decode(base[other])
 			if side == "request" {
-				return x, om
+				return x, om, true
 			}
-			return om, x
+			return om, x, true
 		}
 		// the map itself nil
-		rq, rs := pair(nil)
-		try(side+"=nil", rq, rs)
+		try(side+"=nil", func() (map[string]interface{}, map[string]interface{}, bool) { return pair(nil) })
 		for _, p := range ps {
+			p := p
+			probe, _ := decode(base[side])
+			present := apply(probe, p, true, nil)
 			for _, r := range replacements {
-				x, _ := decode(base[side])
-				if apply(x, p, false, r.val()) {
-					rq, rs := pair(x)
-					try(pathString(side, p)+"="+r.name, rq, rs)
+				r := r
+				if !present && !absentRepl[r.name] {
+					continue
 				}
+				try(pathString(side, p)+"="+r.name, func() (map[string]interface{}, map[string]interface{}, bool) {
+					x, _ := decode(base[side])
+					if !apply(x, p, false, r.val()) {
+						return nil, nil, false
+					}
+					return pair(x)
+				})
 			}
-			x, _ := decode(base[side])
-			if apply(x, p, true, nil) {
-				rq, rs := pair(x)
-				try(pathString(side, p)+" deleted", rq, rs)
+			if present {
+				try(pathString(side, p)+" deleted", func() (map[string]interface{}, map[string]interface{}, bool) {
+					x, _ := decode(base[side])
+					if !apply(x, p, true, nil) {
+						return nil, nil, false
+					}
+					return pair(x)
+				})
 			}
 		}
 	}
